@@ -85,6 +85,16 @@ theorem isTxEp_eq (j : Job) (h : kindOfEp j.ep = some j.req.kind) : isTxEp j.ep 
         · rename_i he; simp at h; simp [he, ← h]
         · cases h
 
+theorem kindOfEp_revert (ep : String) (h : kindOfEp ep = some .revert) : ep = "RevertTransaction" := by
+  unfold kindOfEp at h
+  split at h
+  · cases h
+  · split at h
+    · assumption
+    · split at h
+      · cases h
+      · split at h <;> cases h
+
 /-- a create / revert log carries a transaction id -/
 def TxHasId (l : LogE) : Prop := (l.kind = .create ∨ l.kind = .revert) → l.txid.isSome = true
 
@@ -531,6 +541,137 @@ theorem step_answer (pv : Prov) (o : Outcome) (v : Via) (hph : estep' j.ep ph (.
       · split at h
         · cases h
         · rename_i h1 h2; simp [effRg, logOfOrigin, h1, h2]) }
+
+
+theorem step_publish (hids : Chain.idsOk 0 sh.store) (k : String) (args : List Prov) (o : Outcome) (v : Via)
+    (hph : estep' j.ep ph (.act (.publish k args) o v) = some ph') :
+    StepOK dry isTxKind sh E j rg (.act (.publish k args) o v) ph' := by
+  simp only [estep'] at hph
+  split at hph
+  · rename_i hc
+    simp only [Bool.and_eq_true, decide_eq_true_eq] at hc
+    obtain ⟨hdry, hk⟩ := hc
+    subst hk
+    have hd : dry j.a = false := by rw [← hj.dry]; exact hL.dry _ hdry
+    have key : ∀ l, logOfOrigin rg j (publishOrigin args) = l → Events.entryOf E j.a = some l → l ∈ sh.store →
+        l.kind = j.req.kind → (j.req.kind = .revert → l.reverts = some j.req.target) →
+        (if ph.app then rg.chained = some l else rg.found = some l) → { ph with pub := true } = ph' →
+        StepOK dry isTxKind sh E j rg (.act (.publish (publishKindOf j.ep) args) o v) ph' := by
+      intro l hlo hent hmem hkind hrev hreg hp
+      subst hp
+      have hdesc := describes_bus j l hj.kind hkind hrev (hG.txS l hmem)
+      have hmemE : l ∈ E.durable := by rw [hG.dur]; exact hmem
+      have hany : E.durable.any (Events.describes (busOf (publishKindOf j.ep) j l)) = true :=
+        List.any_eq_true.2 ⟨l, hmemE, hdesc⟩
+      refine ⟨{ E with published := busOf (publishKindOf j.ep) j l :: E.published },
+        by simp [evsOf, runOn, Events.step, hd, hlo, hany, hent, hdesc, hmemE], ?_, hLT,
+        ⟨hG.dur, hG.pend, hG.lt, hG.txS, hG.txQ⟩,
+        fun b _ => ⟨fun _ h => h, fun _ h => .inl h, fun _ h => List.mem_cons_of_mem _ h, rfl, rfl, rfl⟩⟩
+      exact { hL with pub := fun _ => ⟨_, List.mem_cons_self .., l, hdesc, hreg⟩ }
+    split at hph
+    · -- the request's own log
+      rename_i horig
+      split at hph
+      · rename_i hc
+        simp only [Bool.and_eq_true] at hc
+        obtain ⟨l, h1, h2⟩ := hL.dur hc.2
+        have hch : ph.ch = true := by
+          cases h : ph.ch with
+          | true => rfl
+          | false => have := hL.ch0 h; rw [h1] at this; cases this
+        obtain ⟨l', h3, hown⟩ := hL.ch1 hch
+        rw [h1] at h3
+        cases h3
+        exact key l (by simp [logOfOrigin, horig, h1]) (entry_of sh E j rg ph hL hG hids l (by simp [hc.1, h1])) h2
+          hown.1 hown.2.1 (by simp [hc.1, h1]) (Option.some.inj hph)
+      · cases hph
+    · split at hph
+      · -- the log found for the idempotency key
+        rename_i hn horig
+        split at hph
+        · rename_i hc
+          simp only [Bool.and_eq_true, Bool.not_eq_true', Bool.or_eq_true, bne_iff_ne, ne_eq] at hc
+          obtain ⟨⟨⟨happ, hf⟩, hkk⟩, hid⟩ := hc
+          obtain ⟨l, h1, h2⟩ := hL.fndS hf
+          obtain ⟨l', h3, hkind⟩ := hL.kOk hkk
+          rw [h1] at h3
+          cases h3
+          have hrev : j.req.kind = .revert → l.reverts = some j.req.target := by
+            intro hkr
+            have hep := kindOfEp_revert j.ep (by rw [hj.kind, hkr])
+            rcases hid with hid | hid
+            · exact absurd hep hid
+            · obtain ⟨l', h3, h4⟩ := hL.idOk hid
+              rw [h1] at h3
+              cases h3
+              exact h4
+          exact key l (by simp [logOfOrigin, horig, h1]) (entry_of sh E j rg ph hL hG hids l (by simp [happ, hf, h1])) h2
+            hkind hrev (by simp [happ, h1]) (Option.some.inj hph)
+        · cases hph
+      · cases hph
+  · cases hph
+
+theorem step_choose (atom : String) (b : Bool) (hen : enabled sh j rg (.choose atom b) = true)
+    (hph : estep' j.ep ph (.choose atom b) = some ph') :
+    StepOK dry isTxKind sh E j rg (.choose atom b) ph' := by
+  have hfr : ∀ b, b ≠ j.a → Frame sh sh E E b := fun b _ => frame_refl sh E b
+  simp only [estep'] at hph
+  simp only [enabled] at hen
+  split at hph
+  · rename_i ha
+    subst ha
+    have hb : b = j.req.dry := by simpa [atomOk] using hen
+    split at hph
+    · obtain rfl := Option.some.inj hph
+      exact ⟨E, rfl, { hL with dry := fun b' h => (by cases h; exact hb.symm) }, hLT, hG, hfr⟩
+    · rename_i b' hb'
+      have := hL.dry b' hb'
+      split at hph
+      · obtain rfl := Option.some.inj hph
+        exact ⟨E, rfl, hL, hLT, hG, hfr⟩
+      · rename_i hne
+        exact absurd (hb.trans this) hne
+  · split at hph
+    · rename_i ha
+      subst ha
+      have hb : b = j.isTx := by simpa [atomOk] using hen
+      split at hph
+      · obtain rfl := Option.some.inj hph
+        exact ⟨E, rfl, hL, hLT, hG, hfr⟩
+      · rename_i hne
+        exact absurd (hb.trans (isTxEp_eq j hj.kind).symm) hne
+    · split at hph
+      · rename_i ha
+        subst ha
+        split at hph
+        · rename_i hc
+          simp only [Bool.and_eq_true, Bool.not_eq_true'] at hc
+          obtain ⟨⟨hb, hf⟩, hch⟩ := hc
+          subst hb
+          obtain ⟨l, h1, h2⟩ := hL.fndS hf
+          have hch0 := hL.ch0 hch
+          have : l.kind = j.req.kind := by simpa [atomOk, returned, hch0, h1] using hen
+          obtain rfl := Option.some.inj hph
+          exact ⟨E, rfl, { hL with kOk := fun _ => ⟨l, h1, this⟩ }, hLT, hG, hfr⟩
+        · obtain rfl := Option.some.inj hph
+          exact ⟨E, rfl, hL, hLT, hG, hfr⟩
+      · split at hph
+        · rename_i ha
+          subst ha
+          split at hph
+          · rename_i hc
+            simp only [Bool.and_eq_true, Bool.not_eq_true'] at hc
+            obtain ⟨⟨hb, hf⟩, hch⟩ := hc
+            subst hb
+            obtain ⟨l, h1, h2⟩ := hL.fndS hf
+            have hch0 := hL.ch0 hch
+            have : l.reverts = some j.req.target := by simpa [atomOk, returned, hch0, h1] using hen
+            obtain rfl := Option.some.inj hph
+            exact ⟨E, rfl, { hL with idOk := fun _ => ⟨l, h1, this⟩ }, hLT, hG, hfr⟩
+          · obtain rfl := Option.some.inj hph
+            exact ⟨E, rfl, hL, hLT, hG, hfr⟩
+        · obtain rfl := Option.some.inj hph
+          exact ⟨E, rfl, hL, hLT, hG, hfr⟩
 
 end
 
